@@ -23,7 +23,11 @@ import textwrap
 
 from py2lean import Untranslatable
 
-LEAN_T = {'I': 'Int', 'B': 'Bool', 'LI': 'List Int', 'LB': 'List Bool', 'P': 'Int × Int', 'LP': 'List (Int × Int)'}
+LEAN_T = {'I': 'Int', 'B': 'Bool', 'LI': 'List Int', 'LB': 'List Bool', 'P': 'Int × Int', 'LP': 'List (Int × Int)', 'E': 'Np.Epoch', 'LE': 'List Np.Epoch'}
+ELEM = {'LI': 'I', 'LB': 'B', 'LP': 'P', 'LE': 'E'}
+LIST_OF = {v: k for k, v in ELEM.items()}
+# the record type of `xTimelineEpoch` (fields named as in the source)
+FIELDS = {'E': {'start_met': 'I', 'stop_met': 'I', 'in_saa': 'B', 'occulted': 'B'}}
 
 
 def lean_type(t):
@@ -34,7 +38,7 @@ def lean_type(t):
 
 class ImpSpec:
     def __init__(self, module, qual, lean, params, bind=None, effect=None, bare_return=None, skip=('logger.',), note='', selfname=None,
-                 drop_after_effect=True):
+                 drop_after_effect=True, methods=None, calls=None, ctors=None, star_ctor=None, local_types=None):
         self.module, self.qual, self.lean = module, qual, lean
         self.params = list(params)            # [(lean/python name, type)]
         self.bind = dict(bind or {})          # python expression text -> parameter name
@@ -44,6 +48,11 @@ class ImpSpec:
         self.note = note
         self.selfname = selfname              # parameter that `self` denotes when iterated (`for (a, b) in self`)
         self.drop_after_effect = drop_after_effect  # statements after the effect call (logging of the result) are not part of the definition
+        self.methods = dict(methods or {})    # (receiver type, attribute) -> (generated lean function, result type, is_property)
+        self.calls = dict(calls or {})        # call text of a function that denotes a generated definition -> (lean function, result type, leading lean arguments)
+        self.ctors = dict(ctors or {})        # constructor call text -> (lean constructor, result type)
+        self.star_ctor = dict(star_ctor or {})  # `xGTIList(a, b, *gtis)` -> the value is the starred argument (the container of the intervals)
+        self.local_types = dict(local_types or {})  # type of a local initialised with `[]`
 
     def obj(self):
         o = importlib.import_module(self.module)
@@ -97,6 +106,9 @@ def _assigned(stmts, acc=None):
             _assigned(s.orelse, acc)
         elif isinstance(s, ast.For):
             _assigned(s.body, acc)
+        elif isinstance(s, ast.Expr) and isinstance(s.value, ast.Call) and isinstance(s.value.func, ast.Attribute) and s.value.func.attr == 'append' \
+                and isinstance(s.value.func.value, ast.Name):
+            add(s.value.func.value.id)
     return acc
 
 
@@ -157,15 +169,36 @@ class Imp:
             return self.call(n, env)
         if isinstance(n, ast.ListComp):
             return self.listcomp(n, env)
+        if isinstance(n, ast.Attribute):
+            a, ta = self.expr(n.value, env)
+            if isinstance(ta, str) and n.attr in FIELDS.get(ta, {}):
+                return '%s.%s' % (a, n.attr), FIELDS[ta][n.attr]
+            m = self.spec.methods.get((ta, n.attr))
+            if m is not None and m[2]:
+                return '(%s %s)' % (m[0], a), m[1]
+            raise Untranslatable('attribute %s of %s' % (n.attr, ta))
         raise Untranslatable('expression %s' % txt[:80])
 
     def binop(self, n, env):
-        ops = {ast.Add: ('+', 'add'), ast.Sub: ('-', 'sub'), ast.Mult: ('*', 'mul')}
+        ops = {ast.Add: ('+', 'add'), ast.Sub: ('-', 'sub'), ast.Mult: ('*', 'mul'), ast.Mod: ('%', 'mod')}
+        if isinstance(n.op, ast.Mult) and isinstance(n.left, ast.Constant) and n.left.value == 0.5:
+            b, tb = self.expr(n.right, env)
+            if tb != 'I':
+                raise Untranslatable('0.5 * %s' % tb)
+            note = 'the midpoint `0.5 * (…)` is `Np.half` (ticks: exact when the argument is even)'
+            if note not in self.notes:
+                self.notes.append(note)
+            return '(Np.half %s)' % b, 'I'
         if type(n.op) not in ops:
             raise Untranslatable('operator in %s' % ast.unparse(n)[:60])
         sym, name = ops[type(n.op)]
         a, ta = self.expr(n.left, env)
         b, tb = self.expr(n.right, env)
+        if name == 'mod':
+            # Python's % with a positive literal modulus is the Euclidean remainder (`Int.emod`)
+            if (ta, tb) == ('I', 'I') and isinstance(n.right, ast.Constant) and isinstance(n.right.value, int) and n.right.value > 0:
+                return '(%s %% %s)' % (a, b), 'I'
+            raise Untranslatable('%% on %s, %s' % (ta, tb))
         if (ta, tb) == ('I', 'I'):
             return '(%s %s %s)' % (a, sym, b), 'I'
         if name in ('add', 'sub') and (ta, tb) == ('LI', 'I'):
@@ -214,6 +247,30 @@ class Imp:
     def call(self, n, env):
         f = ast.unparse(n.func)
         kw = {k.arg: k.value for k in n.keywords}
+        if f in self.spec.star_ctor and n.args and isinstance(n.args[-1], ast.Starred) and not kw:
+            v, t = self.expr(n.args[-1].value, env)
+            self.notes.append('`%s(…, *%s)`: the value is the list of intervals handed to the constructor (which asserts that they lie in the span)' % (f, ast.unparse(n.args[-1].value)))
+            return v, t
+        if f in self.spec.ctors and not kw:
+            ctor, rt = self.spec.ctors[f]
+            args = [self.expr(a, env) for a in n.args]
+            want = list(FIELDS[rt].values())
+            if [t for _, t in args] != want:
+                raise Untranslatable('constructor %s on %s' % (f, [t for _, t in args]))
+            return '(%s %s)' % (ctor, ' '.join(a for a, _ in args)), rt
+        if f in self.spec.calls and not kw:
+            lean, rt, lead = self.spec.calls[f]
+            args = [self.expr(a, env) for a in n.args]
+            return '(%s %s)' % (lean, ' '.join(list(lead) + [a for a, _ in args])), rt
+        if isinstance(n.func, ast.Attribute) and not kw:
+            try:
+                recv, tr_ = self.expr(n.func.value, env)
+            except Untranslatable:
+                recv, tr_ = None, None
+            m = self.spec.methods.get((tr_, n.func.attr)) if recv is not None else None
+            if m is not None and not m[2]:
+                args = [self.expr(a, env) for a in n.args]
+                return '(%s %s)' % (m[0], ' '.join([recv] + [a for a, _ in args])), m[1]
         if f == 'len' and len(n.args) == 1:
             a, t = self.expr(n.args[0], env)
             if not t.startswith('L'):
@@ -311,6 +368,11 @@ class Imp:
             if len(args) == 1:
                 return '(Np.range 0 %s)' % args[0][0], 'LI'
             return '(Np.range %s %s)' % (args[0][0], args[1][0]), 'LI'
+        if isinstance(n, ast.Call) and ast.unparse(n.func) == 'enumerate' and len(n.args) == 1:
+            a, ta = self.expr(n.args[0], env)
+            if ta != 'LI':
+                raise Untranslatable('enumerate over %s' % ta)
+            return '(Np.enumerate %s)' % a, 'LP'
         if isinstance(n, ast.Call) and ast.unparse(n.func) == 'zip' and len(n.args) == 2:
             a, ta = self.expr(n.args[0], env)
             b, tb = self.expr(n.args[1], env)
@@ -340,7 +402,7 @@ class Imp:
                 and ast.unparse(n.elt) == '(%s, next(%s))' % (g.target.id, g.iter.id):
             return '(Np.pairUp %s)' % env[g.iter.id][1], 'LP'
         a, t = self.iterable(g.iter, env)
-        et = {'LI': 'I', 'LB': 'B', 'LP': 'P'}[t]
+        et = ELEM[t]
         b, ext = self.binder(g.target, et, env)
         env2 = dict(env, **ext)
         cur = a
@@ -350,7 +412,7 @@ class Imp:
                 raise Untranslatable('comprehension filter of type %s' % tt)
             cur = '(%s.filter fun %s => %s)' % (cur, b, ct)
         e, te = self.expr(n.elt, env2)
-        rt = {'I': 'LI', 'B': 'LB', 'P': 'LP'}.get(te)
+        rt = LIST_OF.get(te)
         if rt is None:
             raise Untranslatable('comprehension element %s' % (te,))
         return '(%s.map fun %s => %s)' % (cur, b, e), rt
@@ -377,6 +439,14 @@ class Imp:
                 return pad + v
             if f.startswith(self.spec.skip):
                 return nxt(env)
+            fn_ = s.value.func
+            if isinstance(fn_, ast.Attribute) and fn_.attr == 'append' and isinstance(fn_.value, ast.Name) and len(s.value.args) == 1 and not s.value.keywords:
+                x = fn_.value.id
+                tx = env.get(x)
+                v, tv = self.expr(s.value.args[0], env)
+                if tx is None or ELEM.get(tx) != tv:
+                    raise Untranslatable('append of %s to %s' % (tv, tx))
+                return '%slet %s : %s := %s ++ [%s]\n' % (pad, x, lean_type(tx), x, v) + nxt(env)
             raise Untranslatable('call statement %s' % ast.unparse(s)[:80])
         if isinstance(s, ast.Assert):
             self.notes.append('precondition: %s' % ast.unparse(s.test))
@@ -390,6 +460,11 @@ class Imp:
                     if ta != 'LI':
                         raise Untranslatable('iter of %s' % ta)
                     return nxt(dict(env, **{t.id: ('ITER', a)}))
+                if isinstance(s.value, ast.List) and not s.value.elts:
+                    if t.id not in self.spec.local_types:
+                        raise Untranslatable('empty list %s of undeclared type' % t.id)
+                    tv = self.spec.local_types[t.id]
+                    return '%slet %s : %s := []\n' % (pad, t.id, lean_type(tv)) + nxt(dict(env, **{t.id: tv}))
                 v, tv = self.expr(s.value, env)
                 return '%slet %s : %s := %s\n' % (pad, t.id, lean_type(tv), v) + nxt(dict(env, **{t.id: tv}))
             if isinstance(t, ast.Tuple) and isinstance(s.value, ast.Tuple) and len(t.elts) == len(s.value.elts) and all(isinstance(e, ast.Name) for e in t.elts):
@@ -458,7 +533,7 @@ class Imp:
             return '%slet %s := if %s then (\n%s)\n%s  else (\n%s)\n' % (pad, self.tuple_of(names), c, a, pad, b) + nxt(env)
         if isinstance(s, ast.For) and not s.orelse:
             it, tit = self.iterable(s.iter, env)
-            et = {'LI': 'I', 'LB': 'B', 'LP': 'P'}[tit]
+            et = ELEM[tit]
             b, ext = self.binder(s.target, et, env)
             state = [n_ for n_ in _assigned(s.body) if n_ in env]
             if not state:
@@ -518,6 +593,30 @@ SPECS = [
     ImpSpec('ixpeobssim.evt.gti', 'xGTIList.all_mets', 'all_mets', [('gtis', 'LP')], selfname='gtis'),
     ImpSpec('ixpeobssim.evt.gti', 'xGTIList.complement', 'gti_complement', [('gtis', 'LP')], selfname='gtis', bind={'self.all_mets()': None},
             note='C18: the intervals between consecutive GTIs'),
+    # --- the observation timeline (instrument/traj.py, utils/time_.py): epochs are records with the field names of the source
+    ImpSpec('ixpeobssim.utils.time_', 'xTimeInterval.bounds', 'interval_bounds', [('self', 'E')]),
+    ImpSpec('ixpeobssim.utils.time_', 'xTimeInterval.duration.fget', 'interval_duration', [('self', 'E')]),
+    ImpSpec('ixpeobssim.instrument.traj', 'xTimelineEpoch.shrink', 'epoch_shrink', [('self', 'E'), ('start_padding', 'I'), ('stop_padding', 'I')],
+            ctors={'self.__class__': ('Np.Epoch.mk', 'E')}, note='C18: the bounds moved inwards by the paddings, flags inherited'),
+    ImpSpec('ixpeobssim.instrument.traj', 'xTimelineEpoch.isgti', 'epoch_isgti', [('self', 'E')]),
+    ImpSpec('ixpeobssim.instrument.traj', 'xTimelineEpoch.isocti', 'epoch_isocti', [('self', 'E')]),
+    ImpSpec('ixpeobssim.instrument.traj', 'xObservationTimeline._bisect_odd', 'bisect_odd', [('array_', 'LI'), ('value', 'I')]),
+    ImpSpec('ixpeobssim.instrument.traj', 'xObservationTimeline._calculate_epochs', 'calculate_epochs', [('mets', 'LI'), ('saa_mets', 'LI'), ('occult_mets', 'LI')],
+            calls={'xObservationTimeline._bisect_odd': ('bisect_odd', 'B', [])}, ctors={'xTimelineEpoch': ('Np.Epoch.mk', 'E')}, local_types={'epochs': 'LE'},
+            note='C18: one epoch per pair of consecutive marks, flags by bisection of the SAA / occultation marks at the epoch centre'),
+    ImpSpec('ixpeobssim.instrument.traj', 'xObservationTimeline.filter_epochs', 'filter_epochs',
+            [('epochs', 'LE'), ('min_duration', 'I'), ('start_padding', 'I'), ('stop_padding', 'I')], bind={'self.epochs': 'epochs'},
+            methods={('E', 'duration'): ('interval_duration', 'I', True)}),
+    ImpSpec('ixpeobssim.instrument.traj', 'xObservationTimeline.gti_list', 'timeline_gti_list',
+            [('epochs', 'LE'), ('min_duration', 'I'), ('start_padding', 'I'), ('stop_padding', 'I')],
+            calls={'self.filter_epochs': ('filter_epochs', 'LE', ['epochs'])}, star_ctor={'xGTIList': True},
+            methods={('E', 'shrink'): ('epoch_shrink', 'E', False), ('E', 'bounds'): ('interval_bounds', 'P', False), ('E', 'isgti'): ('epoch_isgti', 'B', False)},
+            note='C18: the good time intervals of a timeline'),
+    ImpSpec('ixpeobssim.instrument.traj', 'xObservationTimeline.octi_list', 'timeline_octi_list',
+            [('epochs', 'LE'), ('min_duration', 'I'), ('start_padding', 'I'), ('stop_padding', 'I')],
+            calls={'self.filter_epochs': ('filter_epochs', 'LE', ['epochs'])},
+            methods={('E', 'shrink'): ('epoch_shrink', 'E', False), ('E', 'bounds'): ('interval_bounds', 'P', False), ('E', 'isocti'): ('epoch_isocti', 'B', False)},
+            note='C18: the on-orbit calibration intervals of a timeline'),
 ]
 
 
